@@ -54,6 +54,7 @@ type pxFrame struct {
 	args  map[ssa.Value]pxVal     // Parameter -> value
 	fargs map[ssa.Value]pxClosure // Parameter -> the function literal passed for it
 	top   bool
+	seen  map[string]bool // (block, state) pairs already walked in this invocation of a callee
 }
 
 // pxClosure: a function literal with its captured cells already resolved.
@@ -67,10 +68,17 @@ type PXState struct {
 	cells  map[ssa.Value]pxVal
 	regs   map[ssa.Value]pxVal
 	defers []*ssa.Defer // deferred calls of the frames on the path, innermost last; run at RunDefers
+	// alias: a parameter stands for the caller's value, a call for the value its callee returned: what a
+	// branch learns about one is learnt about the other
+	alias map[ssa.Value]ssa.Value
+	ret   []ssa.Value // results of the callee frame that just returned (transient)
 }
 
 func (s *PXState) clone() *PXState {
-	n := &PXState{Flags: map[string]bool{}, cells: map[ssa.Value]pxVal{}, regs: map[ssa.Value]pxVal{}}
+	n := &PXState{Flags: map[string]bool{}, cells: map[ssa.Value]pxVal{}, regs: map[ssa.Value]pxVal{}, alias: map[ssa.Value]ssa.Value{}}
+	for k, v := range s.alias {
+		n.alias[k] = v
+	}
 	for k, v := range s.Flags {
 		n.Flags[k] = v
 	}
@@ -109,9 +117,13 @@ type PX struct {
 	OnEdge        func(st *PXState, from, to *ssa.BasicBlock)
 	OnReturn      func(st *PXState, fr *pxFrame, r *ssa.Return)
 	FollowHelpers bool // also walk into unexported go-nfsd functions called statically
-	budget        int
-	Exceeded      bool
-	visited       map[string]bool
+	// Follow: also walk into this statically called function (asked when nothing else applies)
+	Follow   func(st *PXState, call *ssa.Call, h *ssa.Function) bool
+	MaxDepth int      // frames below the explored function (default 4)
+	Cur      *pxFrame // the frame of the call handed to OnCall
+	budget   int
+	Exceeded bool
+	visited  map[string]bool
 }
 
 func NewPX() *PX { return &PX{budget: 40000, visited: map[string]bool{}} }
@@ -122,7 +134,7 @@ func (p *PX) Run(fn *ssa.Function) {
 		return
 	}
 	fr := &pxFrame{fn: fn, bind: map[ssa.Value]ssa.Value{}, args: map[ssa.Value]pxVal{}, fargs: map[ssa.Value]pxClosure{}, top: true}
-	st := &PXState{Flags: map[string]bool{}, cells: map[ssa.Value]pxVal{}, regs: map[ssa.Value]pxVal{}}
+	st := &PXState{Flags: map[string]bool{}, cells: map[ssa.Value]pxVal{}, regs: map[ssa.Value]pxVal{}, alias: map[ssa.Value]ssa.Value{}}
 	p.block(fr, fn.Blocks[0], nil, st, 0)
 }
 
@@ -137,6 +149,27 @@ func (p *PX) cellOf(fr *pxFrame, addr ssa.Value) ssa.Value {
 		return x
 	}
 	return nil
+}
+
+// Root: the value v stands for (a parameter for the caller's argument, a call
+// for what its callee returned).
+func (p *PX) Root(st *PXState, v ssa.Value) ssa.Value {
+	for i := 0; i < 8; i++ {
+		switch x := v.(type) {
+		case *ssa.Convert:
+			v = x.X
+			continue
+		case *ssa.ChangeType:
+			v = x.X
+			continue
+		}
+		if a, ok := st.alias[v]; ok && a != v {
+			v = a
+			continue
+		}
+		break
+	}
+	return v
 }
 
 // Eval: what the path knows about v.
@@ -155,7 +188,14 @@ func (p *PX) Eval(fr *pxFrame, st *PXState, v ssa.Value) pxVal {
 	if r, ok := st.regs[v]; ok {
 		return r
 	}
+	if rt := p.Root(st, v); rt != v {
+		if r, ok := st.regs[rt]; ok {
+			return r
+		}
+	}
 	switch x := v.(type) {
+	case *ssa.MakeClosure, *ssa.Function:
+		return pxVal{nz: true}
 	case *ssa.Const:
 		if x.Value == nil {
 			return pxVal{known: true, k: 0}
@@ -172,6 +212,9 @@ func (p *PX) Eval(fr *pxFrame, st *PXState, v ssa.Value) pxVal {
 			return pxVal{known: true, k: 0}
 		}
 	case *ssa.Parameter:
+		if _, ok := fr.fargs[x]; ok {
+			return pxVal{nz: true} // a function literal was passed
+		}
 		if a, ok := fr.args[x]; ok {
 			return a
 		}
@@ -229,6 +272,17 @@ func (p *PX) block(fr *pxFrame, b *ssa.BasicBlock, pred *ssa.BasicBlock, st *PXS
 			return nil
 		}
 		p.visited[key] = true
+	} else {
+		// a loop inside a callee: the same state at the same block was walked in this invocation and its
+		// end states are already being handed back
+		if fr.seen == nil {
+			fr.seen = map[string]bool{}
+		}
+		key := fmt.Sprintf("%d|%s", b.Index, st.hash())
+		if fr.seen[key] {
+			return nil
+		}
+		fr.seen[key] = true
 	}
 	// phis, simultaneously
 	if pred != nil {
@@ -261,6 +315,14 @@ func (p *PX) block(fr *pxFrame, b *ssa.BasicBlock, pred *ssa.BasicBlock, st *PXS
 
 func (p *PX) from(fr *pxFrame, b *ssa.BasicBlock, idx int, st *PXState, depth int) []*PXState {
 	for i := idx; i < len(b.Instrs); i++ {
+		if _, isPhi := b.Instrs[i].(*ssa.Phi); !isPhi {
+			// the instruction computes its value anew (a second turn of a loop): what a branch learnt about
+			// the old value is gone
+			if v, isV := b.Instrs[i].(ssa.Value); isV {
+				delete(st.regs, v)
+				delete(st.alias, v)
+			}
+		}
 		switch x := b.Instrs[i].(type) {
 		case *ssa.Phi:
 			continue
@@ -275,6 +337,7 @@ func (p *PX) from(fr *pxFrame, b *ssa.BasicBlock, idx int, st *PXState, depth in
 			}
 		case *ssa.Call:
 			if p.OnCall != nil {
+				p.Cur = fr
 				p.OnCall(st, x)
 			}
 			// a cell whose address is handed to someone else is no longer known
@@ -301,7 +364,16 @@ func (p *PX) from(fr *pxFrame, b *ssa.BasicBlock, idx int, st *PXState, depth in
 					cf = h
 				}
 			}
-			if cf != nil && cf.Blocks != nil && depth < 4 {
+			if cf == nil && p.Follow != nil {
+				if h := x.Call.StaticCallee(); h != nil && h.Blocks != nil && p.Follow(st, x, h) {
+					cf = h
+				}
+			}
+			maxd := p.MaxDepth
+			if maxd == 0 {
+				maxd = 4
+			}
+			if cf != nil && cf.Blocks != nil && depth < maxd {
 				nf := &pxFrame{fn: cf, bind: map[ssa.Value]ssa.Value{}, args: map[ssa.Value]pxVal{}, fargs: map[ssa.Value]pxClosure{}}
 				for j, fv := range cf.FreeVars {
 					if j < len(cells) && cells[j] != nil {
@@ -333,8 +405,35 @@ func (p *PX) from(fr *pxFrame, b *ssa.BasicBlock, idx int, st *PXState, depth in
 						}
 					}
 				}
+				in := st.clone()
+				for j, pm := range cf.Params {
+					if j < len(x.Call.Args) {
+						in.alias[pm] = p.Root(st, x.Call.Args[j])
+					}
+				}
 				var out []*PXState
-				for _, rs := range p.block(nf, cf.Blocks[0], nil, st.clone(), depth+1) {
+				for _, rs := range p.block(nf, cf.Blocks[0], nil, in, depth+1) {
+					// what the callee returned
+					note := func(dst ssa.Value, res ssa.Value) {
+						if v := p.Eval(nf, rs, res); v.known || v.nz {
+							rs.regs[dst] = v
+						} else {
+							delete(rs.regs, dst)
+						}
+						if rt := p.Root(rs, res); rt != dst {
+							rs.alias[dst] = rt
+						}
+					}
+					if len(rs.ret) == 1 {
+						note(x, rs.ret[0])
+					} else if len(rs.ret) > 1 && x.Referrers() != nil {
+						for _, ref := range *x.Referrers() {
+							if ex, ok := ref.(*ssa.Extract); ok && ex.Index < len(rs.ret) {
+								note(ex, rs.ret[ex.Index])
+							}
+						}
+					}
+					rs.ret = nil
 					out = append(out, p.from(fr, b, i+1, rs, depth)...)
 				}
 				return out
@@ -355,6 +454,7 @@ func (p *PX) from(fr *pxFrame, b *ssa.BasicBlock, idx int, st *PXState, depth in
 			st.defers = keep
 			for j := len(mine) - 1; j >= 0; j-- {
 				if p.OnCall != nil {
+					p.Cur = fr
 					p.OnCall(st, mine[j])
 				}
 			}
@@ -390,6 +490,7 @@ func (p *PX) from(fr *pxFrame, b *ssa.BasicBlock, idx int, st *PXState, depth in
 				}
 				return nil
 			}
+			st.ret = x.Results
 			return []*PXState{st}
 		case *ssa.Panic:
 			return nil
@@ -425,6 +526,11 @@ func (p *PX) refine(fr *pxFrame, st *PXState, b *ssa.BasicBlock, cond ssa.Value,
 			return
 		}
 		st.regs[v] = val
+		if rt := p.Root(st, v); rt != v {
+			if _, isC := rt.(*ssa.Const); !isC {
+				st.regs[rt] = val
+			}
+		}
 		if ld, ok := v.(*ssa.UnOp); ok && ld.Op == token.MUL && ld.Block() == b {
 			if c := p.cellOf(fr, ld.X); c != nil {
 				clean := true
